@@ -2,6 +2,10 @@ package timed
 
 import (
 	"fmt"
+	eio "github.com/karagenc/socket.io-go/engine.io"
+	eioparser "github.com/karagenc/socket.io-go/engine.io/parser"
+	"net/http"
+	"nhooyr.io/websocket"
 	"strings"
 	"sync"
 	"testing"
@@ -76,6 +80,7 @@ func TestMalformed(t *testing.T) {
 		for i, sc := range scripts {
 			malformedScenario(t, h, i, sc)
 		}
+		malformedToClient(t, h)
 	})
 }
 
@@ -149,5 +154,75 @@ func malformedScenario(t *testing.T, h *H, idx int, script []string) {
 	}
 	if !lateOK {
 		h.Violation("C10", "a later connection is not served after a peer sent malformed frames", desc, "")
+	}
+}
+
+// the other direction: a server (a bare Engine.IO server standing in for it) sends a frame whose header does not parse to a real
+// Go client. The error is reported (the manager's close handlers run), and the manager is not wedged: Close returns. Real time, with
+// a watchdog: a goroutine stuck on a mutex would stop a bubble's clock.
+func malformedToClient(t *testing.T, h *H) {
+	for _, frame := range []string{"9", `51["x"]`, "2[1]", "5-[", ""} {
+		for _, tr := range []string{"polling", "websocket"} {
+			progress("malformed frame to a Go client over %s: %q", tr, frame)
+			nw := newMemNet()
+			srv := eio.NewServer(func(s eio.ServerSocket) *eio.Callbacks {
+				return &eio.Callbacks{OnPacket: func(ps ...*eioparser.Packet) {
+					for _, p := range ps {
+						if p.Type == eioparser.PacketTypeMessage && strings.HasPrefix(string(p.Data), "0") {
+							s.Send(&eioparser.Packet{Type: eioparser.PacketTypeMessage, Data: []byte(`0{"sid":"abcdefghijklmnopqrst"}`)})
+							s.Send(&eioparser.Packet{Type: eioparser.PacketTypeMessage, Data: []byte(frame)})
+						}
+					}
+				}}
+			}, &eio.ServerConfig{WebSocketAcceptOptions: &websocket.AcceptOptions{CompressionMode: websocket.CompressionDisabled, InsecureSkipVerify: true}})
+			srv.Run()
+			hs := &http.Server{Handler: srv}
+			go hs.Serve(nw)
+			cfg := &sio.ManagerConfig{NoReconnection: true}
+			cfg.EIO.HTTPTransport = &http.Transport{DialContext: nw.Dial, DisableCompression: true}
+			cfg.EIO.Transports = []string{tr}
+			cfg.EIO.WebSocketDialOptions = &websocket.DialOptions{
+				HTTPClient:      &http.Client{Transport: &http.Transport{DialContext: nw.Dial, DisableCompression: true}},
+				CompressionMode: websocket.CompressionDisabled,
+			}
+			m := sio.NewManager("http://mem/socket.io/", cfg)
+			var mu sync.Mutex
+			reported := ""
+			m.OnClose(func(reason sio.Reason, err error) { mu.Lock(); reported = string(reason); mu.Unlock() })
+			m.OnError(func(err error) {
+				mu.Lock()
+				if reported == "" {
+					reported = "error: " + err.Error()
+				}
+				mu.Unlock()
+			})
+			c := m.Socket("/", nil)
+			c.Connect()
+			time.Sleep(700 * time.Millisecond)
+			closed := make(chan struct{})
+			go func() { m.Close(); close(closed) }()
+			returned := true
+			select {
+			case <-closed:
+			case <-time.After(4 * time.Second):
+				returned = false
+			}
+			srv.Close()
+			hs.Close()
+			nw.Close()
+			nw.cutAll()
+			desc := fmt.Sprintf("a server sends the frame %q to a Go client over %s", frame, tr)
+			h.Eval()
+			h.NonTrivial(desc)
+			h.Dist("malformed.toClient")
+			mu.Lock()
+			rep := reported
+			mu.Unlock()
+			if !returned {
+				h.Violation("C10", "a malformed frame from the peer wedges the client: Manager.Close does not return", desc, fmt.Sprintf("no return within 4 s; reported to the application: %q", rep))
+			} else if rep == "" && frame != "" {
+				h.Violation("C10", "a frame that does not decode is not reported to the application", desc, "neither the manager's close handlers nor its error handlers ran within 700 ms")
+			}
+		}
 	}
 }
